@@ -55,6 +55,27 @@ CHECKS.update({
    note="Only generated files are compared.", ref="2/C18"),
 })
 
+CHECKS.update({
+ "C09": dict(technique="fuzzing monitor: token/character mutation, random token strings, truncation, hostile shapes; exception-class and per-input alarm watchdog; render of every accepted text; CLI traceback scan (+ atheris in thorough)",
+   text="Tens of thousands of mutated and hostile inputs per run go through the real parser; anything escaping that is not a ParserError/OSError, or an input that twice fails to return within 10 s, is a violation; every accepted text is rendered in all languages and modes and any non-RendererError is a violation.",
+   note="Bounded by generator/mutator reach; inputs are decodable text; thorough adds coverage-guided fuzzing.", ref="2/C09"),
+ "C10": dict(technique="toolchain-as-oracle monitor: gcc -std=c99, link, g++, C vs C++ layout programs, Python ast/import/instantiate/execute, static Go checker",
+   text="Composition-heavy generated schemas are rendered in every language/mode and handed to the real toolchains: per-file C99 compile, link with a caller of every API function (duplicate symbols), the same caller built by g++ through the header, sizeof/offsetof tables from real C and C++ programs, existence of #include targets, Python duplicate declarations/import/instantiation/method execution, and the static Go requirements via my Go parser.",
+   note="Go only statically (no toolchain); two recorded findings (empty struct size in C++, unused Go imports).", ref="2/C10"),
+ "C15": dict(technique="reference naming model vs names observed in .h text, nm symbol tables, parsed Go, imported Python modules; prefix twin differential (layout programs + driver bytes)",
+   text="The exact sets of declared struct/typedef/function/macro names, exported symbols, Go declarations and Python public names are compared with a naming model written from the docs; with c.name_prefix the un-prefixed twin must give identical Go/Python output, struct members, layout and encoded bytes.",
+   note="Names restricted to plain style-guide words; nested Go enum/alias names compared normalised.", ref="2/C15"),
+ "C17": dict(technique="differential monitor over CLI invocations (-O/-F/--endian) with textual function extraction",
+   text="Real CLI invocations are compared with each other: refusals (extensible marker anywhere incl. imports, py -O, -F without -O) must be diagnostics with non-zero exit and no file; -O -F must define exactly the named messages' functions, textually identical to the unfiltered output, with everything else unchanged; --endian may change only bodies and the detection preamble.",
+   note="Functions are delimited by the generator's own layout.", ref="2/C17"),
+ "C19": dict(technique="structural monitor: parsed Go output vs schema model and vs the Python module's processor tree; Go helper bodies evaluated with Go integer semantics vs executed Python helpers",
+   text="Per message: struct fields/types/tags, size constant and Size(), the resolved BpProcessor() tree (vs model and vs the tree the imported Python module builds) and the four accessor switch tables; the five pure Go runtime helpers are evaluated over their whole reachable domain against the executed Python helpers.",
+   note="Go is parsed/evaluated by vlib/sut_gotext.py (trusted), never executed.", ref="2/C19"),
+ "C20": dict(technique="position oracle from the printer (line/column of every name token) + lint stderr monitor + C08 catalogue for error lines + CLI -q/-c differential",
+   text="Conforming schemas must lint clean, each clear naming violation / zero-less enum must be warned about at its file:line, every definition/reference position must equal the name token's position (also on the first line), parser errors must cite a line of the offending construct under heavy layout noise, output must be identical with and without -q and -c must fail exactly on error or warning.",
+   note="Only clear case violations are asserted to warn.", ref="2/C20"),
+})
+
 NOT_YET = {}
 
 def main():
